@@ -134,6 +134,7 @@ type Netceptor struct {
 	reservedServices         map[string]func(*MessageData) error
 	serviceAdsLock           *sync.RWMutex
 	serviceAdsReceived       map[string]map[string]*ServiceAdvertisement
+	serviceAdsWithdrawn      map[string]map[string]time.Time
 	sendServiceAdsChan       chan time.Duration
 	backendWaitGroup         sync.WaitGroup
 	backendCount             int
@@ -332,6 +333,7 @@ func NewWithConsts(ctx context.Context, nodeID string,
 		nameHashes:               make(map[uint64]string),
 		serviceAdsLock:           &sync.RWMutex{},
 		serviceAdsReceived:       make(map[string]map[string]*ServiceAdvertisement),
+		serviceAdsWithdrawn:      make(map[string]map[string]time.Time),
 		sendServiceAdsChan:       nil,
 		backendWaitGroup:         sync.WaitGroup{},
 		backendCount:             0,
@@ -693,6 +695,7 @@ func (s *Netceptor) AddLocalServiceAdvertisement(service string, connType byte, 
 		ConnType: connType,
 		Tags:     tags,
 	}
+	s.clearServiceWithdrawn(s.nodeID, service)
 	s.serviceAdsLock.Unlock()
 	select {
 	case <-s.context.Done():
@@ -720,6 +723,7 @@ func (s *Netceptor) RemoveLocalServiceAdvertisement(service string) error {
 		},
 		Cancel: true,
 	}
+	s.setServiceWithdrawn(s.nodeID, service, sa.Time)
 	data, err := s.translateStructToNetwork(MsgTypeServiceAdvertisement, sa)
 	if err != nil {
 		return err
@@ -1707,6 +1711,26 @@ func (s *Netceptor) GetServiceInfo(nodeID string, service string) (*ServiceAdver
 	return &svcCopy, true
 }
 
+// Records the time of the newest known withdrawal of a service. The caller holds serviceAdsLock.
+func (s *Netceptor) setServiceWithdrawn(nodeID string, service string, when time.Time) {
+	w, ok := s.serviceAdsWithdrawn[nodeID]
+	if !ok {
+		w = make(map[string]time.Time)
+		s.serviceAdsWithdrawn[nodeID] = w
+	}
+	w[service] = when
+}
+
+// Forgets the withdrawal of a service that is advertised anew. The caller holds serviceAdsLock.
+func (s *Netceptor) clearServiceWithdrawn(nodeID string, service string) {
+	if w, ok := s.serviceAdsWithdrawn[nodeID]; ok {
+		delete(w, service)
+		if len(w) == 0 {
+			delete(s.serviceAdsWithdrawn, nodeID)
+		}
+	}
+}
+
 // Handles an incoming service advertisement.
 func (s *Netceptor) handleServiceAdvertisement(data []byte, receivedFrom string) error {
 	if data[0] != MsgTypeServiceAdvertisement {
@@ -1723,6 +1747,12 @@ func (s *Netceptor) handleServiceAdvertisement(data []byte, receivedFrom string)
 	s.Logger.SanitizedDebug("Received service advertisement from %s\n", si.NodeID)
 	s.serviceAdsLock.Lock()
 	defer s.serviceAdsLock.Unlock()
+	// A withdrawal leaves its timestamp behind: anything that is not newer than it is neither
+	// accepted nor relayed, so a delayed older advertisement cannot bring the service back and
+	// a withdrawal is relayed only once.
+	if withdrawn, ok := s.serviceAdsWithdrawn[si.NodeID][si.Service]; ok && !si.Time.After(withdrawn) {
+		return nil
+	}
 	n, ok := s.serviceAdsReceived[si.NodeID]
 	if !ok {
 		n = make(map[string]*ServiceAdvertisement)
@@ -1742,8 +1772,10 @@ func (s *Netceptor) handleServiceAdvertisement(data []byte, receivedFrom string)
 		if len(s.serviceAdsReceived[si.NodeID]) == 0 {
 			delete(s.serviceAdsReceived, si.NodeID)
 		}
+		s.setServiceWithdrawn(si.NodeID, si.Service, si.Time)
 	} else {
 		s.serviceAdsReceived[si.NodeID][si.Service] = si.ServiceAdvertisement
+		s.clearServiceWithdrawn(si.NodeID, si.Service)
 	}
 	s.flood(data, receivedFrom)
 
